@@ -9,7 +9,7 @@ EPS = 1e-6
 
 def _overdue_before(L, t):
     """Is some live timer due at or before t (i.e. the reactor is behind)?"""
-    for tm in L.timers.values():
+    for tm in L.alive.values():
         if tm["alive"] and tm["due"] <= t + EPS:
             return True
     return False
